@@ -1116,7 +1116,7 @@ func C16() *kit.Spec {
 		StateMetric: "distinct operation histories (sha256 of the trace); every step compares the complete population with the naive models",
 		Assumptions: []string{
 			"arguments are in range as the naive model defines range; out-of-range calls are generated only for SetRegion/SetRange/IsRange/AppendBits/Xor where the API returns an error",
-			"SetBulk is given zero for bits at or beyond the array size; SetRow is given arrays at least as wide as the matrix (their first width bits are the row)",
+			"SetBulk is given a word-aligned index (its documented meaning, bits i..i+31, and the word store it performs agree only there) and zero for bits at or beyond the array size; SetRow is given arrays at least as wide as the matrix (their first width bits are the row)",
 			"no scheduler and no fault injector: these containers meet neither (DESIGN.md section 2, caveat 3)",
 		},
 		Components: map[string]string{
